@@ -119,9 +119,28 @@ structure Plug where
   sort : Value → Value → Int
   lyb : Value → Bytes
   unlyb : Bytes → Except MErr Value
+  /-- does a stored value carry THIS type as its `realtype`?  (`false` for leafref: `lyplg_type_store_leafref` stores the value with the
+      plug-in of the target's type, so `value.realtype` is the target's type, which is not an element of the union's `types` array) -/
+  ownRealtype : Bool := true
+  /-- does `store` answer `LY_EINCOMPLETE`, i.e. must the value be resolved against the data tree by the `validate` callback?
+      (leafref with `require-instance true`: an instance of the target with the same canonical value must exist) -/
+  reqInst : Bool := false
 
 /-- the plug-in of a modelled member type -/
-def MTy.plug (m : MTy) : Plug := ⟨m.store, m.canon, m.cmpEq, m.sort, m.lyb, m.unlyb⟩
+def MTy.plug (m : MTy) : Plug :=
+  { store := m.store, canon := m.canon, cmpEq := m.cmpEq, sort := m.sort, lyb := m.lyb, unlyb := m.unlyb }
+
+/-- `plugins_types/leafref.c` with `require-instance false`: store / compare / sort / print / dup are the callbacks of the target's type
+    (`type_lr->realtype->plugin->…`), the stored value has the TARGET's type as `realtype` -/
+def lrefPlug (target : Plug) : Plug := { target with ownRealtype := false }
+
+/-- leafref with `require-instance true` (the default): `store` is the target's and answers `LY_EINCOMPLETE`; `lyplg_type_validate_leafref`
+    → `lyplg_type_resolve_leafref` looks for a target instance whose canonical value is the value's (`path[.='canonical']`) -/
+def lrefrPlug (target : Plug) : Plug := { target with ownRealtype := false, reqInst := true }
+
+/-- `lyplg_type_resolve_leafref` over the canonical values of the existing target instances -/
+def Plug.resolves (p : Plug) (targets : List Bytes) (v : Value) : Bool :=
+  !p.reqInst || targets.contains (p.canon v)
 
 /-- module part / name part of a canonical identityref value `module:name` -/
 def identMod (s : Bytes) : Bytes := s.takeWhile (· != 58)
@@ -193,6 +212,30 @@ def storeU (ms : List Plug) (hints : Nat) (s : Bytes) : Except MErr UVal :=
   | some u => .ok u
   | none => .error .NoMember
 
+/-- `lyplg_type_validate_union` (text formats) = `union_find_type(…, resolve = 1, …)`: the members are tried again, in order, on the ORIGINAL
+    text with the original hints; a member is taken when its `store` succeeds and — if it answered `LY_EINCOMPLETE` — its `validate`
+    callback succeeds too.  `targets` are the canonical values of the instances the leafref members may point to.  The member may be a
+    DIFFERENT one than at store time (`storeU` takes the first that stores, resolvable or not). -/
+def findTypeV (targets : List Bytes) : List Plug → Nat → Nat → Bytes → Option UVal
+  | [], _, _, _ => none
+  | m :: r, i, hints, s =>
+    match m.store hints s with
+    | .ok v => if m.resolves targets v then some ⟨i, v⟩ else findTypeV targets r (i + 1) hints s
+    | .error _ => findTypeV targets r (i + 1) hints s
+
+/-- the same with the target instances given per member (each leafref member has a target of its own) -/
+def findTypeVM (targetsOf : Plug → List Bytes) : List Plug → Nat → Nat → Bytes → Option UVal
+  | [], _, _, _ => none
+  | m :: r, i, hints, s =>
+    match m.store hints s with
+    | .ok v => if m.resolves (targetsOf m) v then some ⟨i, v⟩ else findTypeVM targetsOf r (i + 1) hints s
+    | .error _ => findTypeVM targetsOf r (i + 1) hints s
+
+def validateU (ms : List Plug) (targets : List Bytes) (hints : Nat) (s : Bytes) : Except MErr UVal :=
+  match findTypeV targets ms 0 hints s with
+  | some u => .ok u
+  | none => .error .NoMember
+
 /-- canonical value: `subvalue->value._canonical` -/
 def canonU (ms : List Plug) (u : UVal) : Bytes :=
   match ms[u.idx]? with
@@ -214,6 +257,25 @@ def sortU (ms : List Plug) (a b : UVal) : Int :=
     | some m => m.sort a.val b.val
     | none => 0
   else if a.idx < b.idx then 1 else -1
+
+/-- `lyplg_type_sort_union` as the C code runs it when some member does not store its own type as `realtype` (leafref): the loop
+    `LY_ARRAY_FOR(types, u) { if (types[u] == val1->…realtype) {rc = 1; break;} else if (types[u] == val2->…realtype) {rc = -1; break;} }`
+    never meets the value of such a member; when it meets neither value `rc` stays 0 (`assert(rc != 0)` is compiled out with NDEBUG).
+    For member lists without leafref — and for all member lists with the repaired loop — this is `sortU` (`sortUV_eq_sortU`). -/
+def sortUVWith (lrefFound : Bool) (ms : List Plug) (a b : UVal) : Int :=
+  if a.idx == b.idx then
+    match ms[a.idx]? with
+    | some m => m.sort a.val b.val
+    | none => 0
+  else
+    let va := lrefFound || (ms[a.idx]?.map Plug.ownRealtype).getD true
+    let vb := lrefFound || (ms[b.idx]?.map Plug.ownRealtype).getD true
+    if a.idx < b.idx then (if va then 1 else if vb then -1 else 0)
+    else (if vb then -1 else if va then 1 else 0)
+
+/-- the sort callback of the tree the model was generated from (`lrefFound` = the repaired loop, `fixes/F424.diff`, which looks a leafref
+    member up by its target's type) -/
+def sortUV := sortUVWith Generated.unionSortLeafrefTarget
 
 /-- `lyb_union_print`: the member is looked up again (`union_find_type` on the original text — the same member), then
     4-byte little-endian index + the member's LYB value -/
